@@ -133,9 +133,13 @@ def run(ctx):
             st0 = clean.steps[0]
             can, seqs = T.canon(st0["events"], with_seq=True)
             for k, t in enumerate(can):
-                if t[0] in ("write", "copy", "read"):
+                if t[0] in ("write", "copy"):
                     for er in ("ENOSPC", "EIO"):
                         cjobs.append((w, pre, L, seqs[k], k, t[0], er))
+            upto0 = st0["returned_at"] if st0["returned_at"] is not None else len(st0["events"])
+            for e in st0["events"][st0["staged_at"]:upto0][:400]:
+                if e["call"] == "read" and not e["err"]:
+                    cjobs.append((w, pre, L, e["seq"], -1, "read", "EIO"))
     complete = {K.fnv_show(K.BIG1), K.fnv_show(K.BIG2)}
     for w, pre, L, seq, k, call, er in cjobs:
         try:
